@@ -462,7 +462,7 @@ def model_check(v: Verdict, tier: str) -> None:
     if live.violated:
         v.violation("TLC: Isolation (a stalled connection delays only itself) violated in the transport model",
                     {"kind": "tlc", "cfg": "MC_Transport_live.cfg", "tail": live.stdout[-3000:]})
-    a = tlc.require_ok(tlc.run_tlc("MC_Transport", "MC_Transport_asis.cfg", timeout=900), "transport as-is self-test")
+    a = tlc.require_ok(tlc.run_tlc("MC_Transport", "MC_Transport_asis.cfg", timeout=2400), "transport as-is self-test")
     v.notes["asis_selftest"] = {"AsIsTtyNoLock=TRUE violates": a.violated}
     if a.violated not in ("PrefixWhenNoFailure", "WholeInOrder"):
         raise tlc.MachineryError(f"self-test: TTY without lock should violate the ordering invariants, got {a.violated}")
